@@ -106,7 +106,7 @@ PROPS = {
         design_ref="DESIGN.md section 4, C11",
     ),
     "C12": S(
-        registry.C12,
+        registry.C12 + [safety.idkey1],
         explanation="The dispatch registry is an IdentityDict; inside IdentityDict every keyed access wraps the key in id(), every store keeps the key object as element 0, every value accessor projects element 1 (sibling agreement); "
                     "get_code has a rebinding+continue case for partial, MethodType, classmethod, staticmethod and __wrapped__ and leaves its loop only through the final break; nested names are resolved through co_consts by co_name; "
                     "registration is an unconditional item store keyed by get_code(code, *names) (latest wins), dispatch falls back only on KeyError; every customize option is forwarded in the decorator form and has an effect in customize_it.",
@@ -145,7 +145,7 @@ PROPS = {
         design_ref="DESIGN.md section 4, C16",
     ),
     "C06": S(
-        safety.C06 + [safety.snap, o.alias1, o.exi1_producers, fmt.mode_rules, e.opt1] + layout.RULES + formulas.RULES,
+        safety.C06 + [safety.snap, o.alias1, o.exi1_producers, fmt.mode_rules, e.opt1, safety.idkey1] + layout.RULES + formulas.RULES,
         explanation="Structural clauses of 'extraction is a pure observation': (ESC-1) in every function that can run during an extraction, every store into persistent state (globals, module-level containers and objects, "
                     "mutable defaults, thread-local state, closure cells of registered hooks, memoising decorators) is enumerated and its stored value must not be derived from a target (value-provenance propagation with id/len/repr/type/code-object sanitisers); "
                     "(ESC-2) no send/throw/close/asend/athrow/aclose/__next__/next() on anything the package did not create itself, and unwrap results are iterated only as FrameIterator/Sequence; "
@@ -257,7 +257,7 @@ PROPS = {
         design_ref="DESIGN.md section 4, C17",
     ),
     "C03": S(
-        [slices.slc4, e.eng1, e.eng34, cc.eng6, e.truth1] + version.API,
+        [slices.slc4, e.eng1, e.eng34, cc.eng6, e.truth1, safety.idkey1] + version.API,
         explanation="Thin: structural necessary conditions of 'the frames are the path an exception would take'. The three built-in unwrappers, as truth tables over the tests they make: a suspended generator / coroutine / "
                     "async generator unwraps to (its frame, what it delegates to) in that order, with attributes of its own family that exist on every supported interpreter (SLC-4, VER-5, VER-5b); unwrap results take the "
                     "unwrapped item's place in order, one level deeper, and the queue is drained before a frame is elaborated (ENG-3, ENG-4); the only bound on the chain is the counter of unwraps *without progress*, reset at every "
